@@ -17,7 +17,7 @@ Open Scope string_scope.
 Theorem C04_delete_exact_partial : forall d cs,
   wf_doc d ->
   no_dup_no_disorder d (map pc_pair (del_order cs)) = true ->
-  delete_nodes cs d = Done (delete_spec d (map pc_pair (del_order cs))).
+  delete_nodes cs d = MDone (delete_spec d (map pc_pair (del_order cs))).
 Proof. exact delete_exact. Qed.
 Print Assumptions C04_delete_exact_partial.
 
@@ -36,7 +36,7 @@ Print Assumptions C04_guard_from_document_order.
 Theorem C04_delete_exact_ordered : forall d cs,
   wf_doc d ->
   doc_ordered d (rev (map pc_pair (del_order cs))) = true ->
-  delete_nodes cs d = Done (delete_spec d (rev (map pc_pair (del_order cs)))).
+  delete_nodes cs d = MDone (delete_spec d (rev (map pc_pair (del_order cs)))).
 Proof. exact delete_exact_ordered. Qed.
 Print Assumptions C04_delete_exact_ordered.
 
@@ -44,7 +44,7 @@ Print Assumptions C04_delete_exact_ordered.
 Theorem C04_delete_exact_single_path : forall d ps,
   wf_doc d ->
   doc_ordered d (map pc_pair ps) = true ->
-  delete_nodes (map (fun p => CNode p false) ps) d = Done (delete_spec d (map pc_pair ps)).
+  delete_nodes (map (fun p => CNode p false) ps) d = MDone (delete_spec d (map pc_pair ps)).
 Proof. exact delete_exact_plain. Qed.
 Print Assumptions C04_delete_exact_single_path.
 
@@ -95,13 +95,13 @@ Example C04_guard_nonvacuous :
   wf_docb doc1 = true /\
   no_dup_no_disorder doc1 (map pc_pair (del_order [plain 2 (PInt 0); plain 2 (PInt 1); plain 2 (PInt 2); plain 2 (PInt (-1))])) = true /\
   delete_nodes [plain 2 (PInt 0); plain 2 (PInt 1); plain 2 (PInt 2); plain 2 (PInt (-1))] doc1
-  = Done (NMap (ct 0) [ (sk 1 "a", NSeq (ct 2) []); (sk 6 "b", iv 7 5) ]).
+  = MDone (NMap (ct 0) [ (sk 1 "a", NSeq (ct 2) []); (sk 6 "b", iv 7 5) ]).
 Proof. vm_compute. repeat split. Qed.
 
 (* a nested match: a[1] and the whole of a *)
 Example C04_nested_nonvacuous :
   no_dup_no_disorder doc1 (map pc_pair (del_order [plain 0 (PStr "a"); plain 2 (PInt 1)])) = true /\
-  delete_nodes [plain 0 (PStr "a"); plain 2 (PInt 1)] doc1 = Done (NMap (ct 0) [ (sk 6 "b", iv 7 5) ]).
+  delete_nodes [plain 0 (PStr "a"); plain 2 (PInt 1)] doc1 = MDone (NMap (ct 0) [ (sk 6 "b", iv 7 5) ]).
 Proof. vm_compute. repeat split. Qed.
 
 (* non-vacuity of the document-order hypothesis: a.* style gather a[0], a[1], a[2], a[3] and b, in document order;
@@ -115,7 +115,7 @@ Example C04_ordered_nonvacuous :
   delete_nodes (map (fun p => CNode p false)
                   [mkpc (Some 2%N) (PInt 0); mkpc (Some 2%N) (PInt 1); mkpc (Some 2%N) (PInt 2); mkpc (Some 2%N) (PInt 3);
                    mkpc (Some 0%N) (PStr "b")]) doc1
-  = Done (NMap (ct 0) [ (sk 1 "a", NSeq (ct 2) []) ]).
+  = MDone (NMap (ct 0) [ (sk 1 "a", NSeq (ct 2) []) ]).
 Proof. vm_compute. repeat split. Qed.
 
 (* {m1: 1, base: &m1 {x: 1}, u: {z: 3 + merged x}}: key m1 is spelled like the anchor of the mapping `base`;
@@ -129,7 +129,7 @@ Example C04_merge_test_nonvacuous :
   is_ymk_anchor (PStr "m1") docM = true /\
   no_ymk_hit [9%N] [mkpc (Some 0%N) (PStr "m1")] docM = true /\
   delete_nodes_mg [9%N] [plain 0 (PStr "m1")] docM
-  = Done (NMap (ct 0) [ (sk 3 "base", NMap (mkinfo 4 (Some "m1") true None) [ (sk 5 "x", iv 2 1) ]);
+  = MDone (NMap (ct 0) [ (sk 3 "base", NMap (mkinfo 4 (Some "m1") true None) [ (sk 5 "x", iv 2 1) ]);
                         (sk 8 "u", NMap (ct 9) [ (sk 10 "z", iv 11 3); (sk 5 "x", iv 2 1) ]) ]) /\
   delete_nodes_mg [9%N] [plain 9 (PStr "m1")] docM = Failed docM (PyCrash NotImplemented).
 Proof. vm_compute. repeat split. Qed.
@@ -147,7 +147,7 @@ Definition dup_coords : list coord :=
 
 Theorem C04_delete_exact_refuted : exists d cs,
   wf_doc d /\
-  delete_nodes cs d <> Done (delete_spec d (map pc_pair (del_order cs))).
+  delete_nodes cs d <> MDone (delete_spec d (map pc_pair (del_order cs))).
 Proof.
   exists doc2, dup_coords. split.
   - apply wf_docb_sound. vm_compute. reflexivity.
@@ -159,7 +159,7 @@ Print Assumptions C04_delete_exact_refuted.
 Definition doc3 : node := NMap (ct 0) [ (sk 1 "a", NSeq (ct 2) [iv 3 1; iv 4 2; iv 5 3; iv 6 4]) ].
 Example C04_disorder_witness :
   delete_nodes [CList [plain 2 (PInt 2); plain 2 (PInt 0)] (mkpc None PNone) false] doc3
-  = Done (NMap (ct 0) [ (sk 1 "a", NSeq (ct 2) [iv 4 2; iv 5 3]) ]).
+  = MDone (NMap (ct 0) [ (sk 1 "a", NSeq (ct 2) [iv 4 2; iv 5 3]) ]).
 Proof. vm_compute. reflexivity. Qed.
 
 (* known finding F_rootmix: `(b)+(/)`-style gathers delete b before refusing the root *)
